@@ -1,6 +1,7 @@
 """C18 — a run only reads its inputs and writes one report file (DESIGN 5/C18)."""
 from runner import Ob
 from rules import depend
+import core
 import sites as S
 import terms as T
 from core import show
@@ -83,6 +84,24 @@ def run(ctx, crate):
                 obs.append(Ob("R18.inputs", on.path, "the default directory ./contracts is looked at only when it is the directory to analyse", ok, site=s.where,
                               expected="guarded by: no --path and no path from a configuration file", found=S.guard_str(g)[-200:],
                               example="solstat --toml cfg.toml (cfg sets path) run from a directory without ./contracts"))
+    if on is not None:
+        # what the options resolver may look at in the file system: the configuration file it was pointed to and the default directory; anything else
+        # (the working directory's listing, ./src, ..) lets files that are no input — a report from the previous run — steer the run
+        strangers = []
+        n_fs = 0
+        for s in S.call_sites(on):
+            if not (s.path.startswith("std::fs::") or s.path in ("std::path::Path::exists", "std::path::Path::is_dir", "std::path::Path::is_file", "std::path::Path::read_dir",
+                                                                    "std::path::Path::metadata", "std::env::current_dir")):
+                continue
+            n_fs += 1
+            a0 = s.args[0] if s.args else ("unknown", "")
+            names_contracts = any(x == ("const", "str", "./contracts") or (x[0] == "obj" and x[2] == ("const", "str", "./contracts")) for x in T.subterms(a0))
+            names_toml = any(x[0] == "proj" and x[2][0] == "f" and len(x[2]) > 2 and x[2][2] == "toml" for x in T.subterms(a0))
+            if not (names_contracts or names_toml):
+                strangers.append("%s(%s) at line %d" % (core.short_fn(s.path), show(a0)[:50], s.line))
+        obs.append(Ob("R18.inputs", on.path, "resolving the options looks at nothing but the configuration file and ./contracts", not strangers and n_fs > 0,
+                      expected="fs accesses of Opts::new name --toml's file or the literal ./contracts", found=strangers or "%d accesses, all of these two" % n_fs,
+                      example="a plain `solstat` run in a directory that already holds solstat_report.md"))
     writes = []
     inv = []
     for b in crate.bodies.values():
